@@ -163,6 +163,42 @@ func runC04(r *Runner, g *Gen, tier string) string {
 			r.Do(L(A("bqptr"), A(fmt.Sprint(50+i*40))), true, "bqptr")
 		}
 	}
+	// 2a''. the room a counted container requests (entriesPresent): every short body over a small alphabet under
+	// several counts, well-formed bodies of n entries with trailing garbage, huge declared lengths
+	{
+		alpha := []byte{0x00, 0x01, 0x02, 0x05, 0x7f, 0x80, 0xff}
+		var gen func(prefix []byte)
+		gen = func(prefix []byte) {
+			for _, mx := range []string{"0", "1", "2", "5", "18446744073709551615"} {
+				r.Do(L(A("entriespresent"), A(hx(prefix)), A(mx)), len(prefix) > 0, "entriespresent.exhaustive")
+			}
+			if len(prefix) >= scale(tier, 4, 5) {
+				return
+			}
+			for _, b := range alpha {
+				gen(append(append([]byte(nil), prefix...), b))
+			}
+		}
+		gen(nil)
+		for i := 0; i < scale(tier, 300, 20000); i++ {
+			var body []byte
+			n := g.r.Intn(6)
+			for k := 0; k < n; k++ {
+				body = append(body, lenPrefixed(g.r.Bytes(g.r.Pick3(0, 1, 130)))...)
+			}
+			switch g.r.Intn(4) {
+			case 0:
+				body = append(body, g.r.Bytes(g.r.Intn(3))...)
+			case 1:
+				body = append(body, refVarint(1<<62)...)
+			case 2:
+				if len(body) > 0 {
+					body = body[:g.r.Intn(len(body))]
+				}
+			}
+			r.Do(L(A("entriespresent"), A(hx(body)), A(fmt.Sprint(g.r.Pick3(n, n+3, 1)))), true, "entriespresent.random")
+		}
+	}
 	// 2b. the JSON-any decoders and their descriptor walk: exhaustive short strings, then mutated valid encodings
 	jalpha := []byte{0x00, 0x01, 0x02, 0x03, 0x05, 0x06, 0x07, 0x08, 0x0a, 0x10, 0x12, 0x18, 0x1a, 0x1b, 0x7f, 0x80, 0xff}
 	jmax := scale(tier, 3, 4)
